@@ -570,9 +570,11 @@ void vf_search(const vf::Args& a)
 		for (int kind = 0; kind < 5; kind++) {
 			// main drops its own handles before the workers start: 2 concurrent threads, every interleaving
 			// (HashMap has two counts per handle operation, its own and the bucket array's: one op fewer in the quick tier)
-			int l2 = kind == 2 && a.quick() ? 1 : 2;
-			cfgs.push_back({make_case(kind, 2, 1, 1, {sub(t1, 2), sub(t2, l2)}), -1, 300000});
-			cfgs.push_back({make_case(kind, 2, 2, 1, {sub(t2, l2), sub(t1, 2)}), -1, 300000});
+			// (every HashMap handle operation has several atomic steps - its own count and the bucket array's - so its
+			// complete enumeration, 10^5..10^6 schedules, is left to the thorough tier; quick bounds it to 3 preemptions)
+			int l = kind == 2 ? 1 : 2, bnd = kind == 2 && a.quick() ? 3 : -1;
+			cfgs.push_back({make_case(kind, 2, 1, 1, {sub(t1, l), sub(t2, l)}), bnd, 1000000});
+			cfgs.push_back({make_case(kind, 2, 2, 1, {sub(t2, l), sub(t1, l)}), bnd, 1000000});
 			// main drops concurrently with the workers (3 participants): preemption-bounded
 			cfgs.push_back({make_case(kind, 2, 1, 0, {sub(t1, 2), sub(t2, 2)}), 2, 300000});
 			if (!a.quick()) {
